@@ -74,6 +74,23 @@ def combinators(ctx):
     out.append(("scan[aff x3]", 2, None, B.Scan(L["eqx"].filter_vmap(lambda k: B.Affine(jr.normal(k, (2,)), jnp.exp(0.5 * jr.normal(k, (2,)))))(jr.split(jr.PRNGKey(3), 3)))))
     out.append(("coupling-cond", 3, 2, perturb(B.Coupling(jr.PRNGKey(1), transformer=B.Affine(), untransformed_dim=1, dim=3, cond_dim=2, nn_width=6, nn_depth=1), rng, 0.5)))
     out.append(("maf-rqs-cond", 3, 2, perturb(B.MaskedAutoregressive(jr.PRNGKey(2), transformer=B.RationalQuadraticSpline(knots=3, interval=2), dim=3, cond_dim=2, nn_width=6, nn_depth=1), rng, 0.5)))
+    # unusual but legitimate configurations (large dimension, many knots / children / layers, rank 3, depth-0 and deep conditioners)
+    big = []
+    big.append(("affine-dim400-small-scales", 400, None, L["eqx"].tree_at(lambda a: a.scale, B.Affine(jnp.asarray(rng.normal(0, 1, 400)), jnp.ones(400)),
+                                                                      jnp.asarray(rng.uniform(0.05, 0.5, 400) * rng.choice([-1.0, 1.0], 400)))))
+    big.append(("vmap-rqs-24knots", 5, None, B.Vmap(perturb(B.RationalQuadraticSpline(knots=24, interval=(-4, 5)), rng, 1.0), axis_size=5)))
+    big.append(("maf-dim7-depth0", 7, None, perturb(B.MaskedAutoregressive(jr.PRNGKey(5), transformer=B.Affine(), dim=7, nn_width=9, nn_depth=0), rng, 0.5)))
+    big.append(("maf-dim6-depth3-cond", 6, 3, perturb(B.MaskedAutoregressive(jr.PRNGKey(6), transformer=B.Affine(), dim=6, cond_dim=3, nn_width=7, nn_depth=3), rng, 0.4)))
+    big.append(("coupling-dim8-ud7", 8, None, perturb(B.Coupling(jr.PRNGKey(7), transformer=B.Affine(), untransformed_dim=7, dim=8, nn_width=6, nn_depth=1), rng, 0.5)))
+    big.append(("stack-rank3-axis1[4 children]", (2, 4, 3), None, B.Stack([aff((2, 3)) for _ in range(4)], axis=1)))
+    big.append(("concat-axis-2[5 children]", (2, 11, 2), None, B.Concatenate([aff((2, k, 2)) for k in (1, 2, 3, 4, 1)], axis=-2)))
+    big.append(("partial-bool-mask", 6, None, B.Partial(aff((3,)), jnp.asarray([True, False, True, False, False, True]), (6,))))
+    big.append(("chain-8-layers", 3, None, B.Chain([aff((3,)), B.LeakyTanh(1.5, (3,)), aff((3,)), B.Invert(B.SoftPlus((3,))), B.SoftPlus((3,)), B.Flip((3,)), aff((3,)),
+                                                   B.Permute(jnp.asarray([2, 0, 1]))])))
+    big.append(("tri-affine-dim12-upper", 12, None, B.TriangularAffine(jnp.asarray(rng.normal(0, 1, 12)), jnp.asarray(rng.normal(0, 0.5, (12, 12)) + 2 * np.eye(12)), lower=False)))
+    for i, item in enumerate(big):  # quick tier: half of them per run, rotating with the seed
+        if not ctx.quick or (i + ctx.seed) % 2 == 0:
+            out.append(item)
     return out
 
 
